@@ -131,6 +131,12 @@ def import_cases() -> list[dict]:
         mk({"main.exps": 'import "./a.exps";\ndef 0 { ~lib(); }\n', "a.exps": 'import "./main.exps";\n' + M}, cyc=True),
         mk({"main.exps": 'import "./a.exps";\ndef 0 { a(); }\n', "a.exps": 'import "./b.exps";\n' + M, "b.exps": 'import "./a.exps";\nmacro other() { o(); }\n'}, cyc=True),
         mk({"main.exps": 'import "./a.exps";\ndef 0 { a(); }\n', "a.exps": 'import "./sub/b.exps";\n' + M, "sub/b.exps": 'import "../a.exps";\nmacro other() { o(); }\n'}, cyc=True),
+        mk({"main.exps": 'import "./a.exps";\ndef 0 { a(); }\n', "a.exps": 'import "./b.exps";\n' + M, "b.exps": 'import "./c.exps";\nmacro mb() { o(); }\n',
+            "c.exps": 'import "./a.exps";\nmacro mc() { o(); }\n'}, cyc=True),
+        mk({"main.exps": 'import "./a.exps";\ndef 0 { a(); }\n', "a.exps": 'import "./b.exps";\n' + M, "b.exps": 'import "./c.exps";\nmacro mb() { o(); }\n',
+            "c.exps": 'import "./d.exps";\nmacro mc() { o(); }\n', "d.exps": 'import "./b.exps";\nmacro md() { o(); }\n'}, cyc=True),
+        mk({"main.exps": 'import "./a.exps";\nimport "./x.exps";\ndef 0 { a(); }\n', "a.exps": M, "x.exps": 'import "./y.exps";\nmacro mx() { o(); }\n',
+            "y.exps": 'import "./z.exps";\nmacro my() { o(); }\n', "z.exps": 'import "./x.exps";\nmacro mz() { o(); }\n'}, cyc=True),
         mk({"main.exps": 'import "./a.exps";\ndef 0 { ~lib(); }\n', "a.exps": M + R}, rin=True),
         mk({"main.exps": 'import "./a.exps";\ndef 0 { ~lib(); }\n', "a.exps": 'import "./b.exps";\n' + M, "b.exps": "macro other() { o(); }\ncoro C { c(); }\n"}, rin=True),
         mk({"main.exps": 'import "./a.exps";\ndef 0 { ~lib(); }\n', "a.exps": M + "def 0 { alias previous; }\n"}, rin=True),
